@@ -343,3 +343,104 @@ Definition start_run (p : params) (times : list Z) (now : Z) (st : store) : obs 
 
 Definition start_step (p : params) (times : list Z) (now : Z) (st : store) : obs :=
   fst (start_run p times now st).
+
+(** * Faults of the environment inside subjectiveTail (second follow-up)
+
+    The getter and the store may fail: [FGet k] fails the k-th getter call made
+    while subjectiveTail runs (the fetch of the new tail by Get / GetByHeight is
+    call 0 when it happens, the GetRangeByHeight chunks of the downward doSync
+    follow), [FWrite k] fails the k-th store write (Store.Append / DeleteRange
+    reaching the underlying store; a failing write has no effect). The functions
+    below return [Some o] when the fault fires (o = the observation of the failed
+    call) and [None] when subjectiveTail ends before the k-th call is made: the
+    run is then the unfaulted one. *)
+Inductive fault := FNone | FGet (k : nat) | FWrite (k : nat).
+Definition fget (f : fault) (k : nat) : bool := match f with FGet j => Nat.eqb j k | _ => false end.
+Definition fwrite (f : fault) (k : nat) : bool := match f with FWrite j => Nat.eqb j k | _ => false end.
+
+Fixpoint hseq (lo : N) (k : nat) : list N :=
+  match k with O => [] | S m => lo :: hseq (lo + 1) m end.
+(** Store.Append of the chain headers lo..hi *)
+Definition st_append_range (st : store) (lo hi : N) : store :=
+  fold_left st_append (hseq lo (N.to_nat (hi + 1 - lo))) st.
+
+(** header.MaxRangeRequestSize *)
+Definition chunk_size : N := 64.
+
+(** requestHeaders of the downward doSync: (cur .. t] in chunks, one getter call
+    and one write per chunk; g getter calls and w writes were made before *)
+Fixpoint down_fault (fuel : nat) (f : fault) (g w : nat) (st : store) (cur t : N) : option store :=
+  match fuel with
+  | O => None
+  | S fu =>
+    if t <=? cur then None
+    else if fget f g || fwrite f w then Some st
+    else let hi := N.min (cur + chunk_size) t in
+         down_fault fu f (S g) (S w) (st_append_range st (cur + 1) hi) hi t
+  end.
+
+(** moveTail with a fault; None: no fault fired *)
+Definition move_fault (f : fault) (g w : nat) (st : store) (old : option N) (x : N) : option store :=
+  match old with
+  | None => None
+  | Some t =>
+    if t <? x then
+      if fwrite f w then Some st
+      else if wrap64 (s_head st + 1) <? x then
+        match st_delete_range st t (wrap64 (s_head st + 1)) with
+        | Some st' => if fwrite f (S w) then Some st' else None
+        | None => None
+        end
+      else None
+    else if x <? t then down_fault (S (N.to_nat (t - x))) f g w st x t
+    else None
+  end.
+
+Definition failed (req : list N) (r : option store) : option obs :=
+  match r with Some st => Some (Obs OErr req st) | None => None end.
+
+Definition fetch_fault (f : fault) (times : list Z) (st : store) (old : option N) (x : N) (req : list N) : option obs :=
+  if fget f 0 then Some (Obs OErr req st)
+  else if in_chain times x then
+    if fwrite f 0 then Some (Obs OErr req st)
+    else failed req (move_fault f 1 1 (st_append st x) old x)
+  else None.
+
+Definition subjective_tail_fault (f : fault) (p : params) (times : list Z) (st : store) : option obs :=
+  let n := net_head times in
+  let old := if st_empty st then None else Some (s_tail st) in
+  match p_hash p with
+  | HBadHex => None
+  | HAt k =>
+    if match old with Some t => (k =? t) && in_chain times k | None => false end
+    then None
+    else if in_chain times k && st_has st k
+    then failed [] (move_fault f 0 0 st old k)
+    else fetch_fault f times st old k []
+  | HNone =>
+    let oldp := match old with
+                | Some t => match tm times t with Some t0 => Some (t, t0) | None => None end
+                | None => None
+                end in
+    let headT := match tm times n with Some t => t | None => 0%Z end in
+    let time_at := fun h => if st_has st h then tm times h else None in
+    match tail_height p oldp n headT (st_height st) time_at with
+    | TVal x =>
+      if (x <=? st_height st) && (x =? 0) then None
+      else if (x <=? st_height st) && st_has st x
+      then failed [] (move_fault f 0 0 st old x)
+      else fetch_fault f times st old x [x]
+    | _ => None
+    end
+  end.
+
+(** Start() with a fault inside the recomputation of the tail *)
+Definition start_step_f (f : fault) (p : params) (times : list Z) (now : Z) (st : store) : obs :=
+  match start_call p times now st with
+  | inr (_, st1) =>
+    match subjective_tail_fault f p times st1 with
+    | Some o => o
+    | None => start_step p times now st
+    end
+  | inl _ => start_step p times now st
+  end.
